@@ -59,6 +59,12 @@ def read_container(path: str) -> Container:
         dirs = [n for n in order if n.endswith("/")]
         return Container({k: v for k, v in members.items() if not k.endswith("/")}, form, [n for n in order if not n.endswith("/")], dirs)
     zm, zo = _read_zip(path)
+    # some archives wrap the document in one folder ("name.numbers/..."): logical names are relative to it
+    tops = {n.split("/", 1)[0] for n in zo}
+    if len(tops) == 1 and next(iter(tops)).endswith(".numbers") and all("/" in n for n in zo):
+        pre = next(iter(tops)) + "/"
+        zm = {n[len(pre):]: v for n, v in zm.items() if n != pre}
+        zo = [n[len(pre):] for n in zo if n != pre]
     flat, order = {}, []
     for n in zo:
         if n.lower().endswith("index.zip"):
